@@ -15,7 +15,17 @@ if ! git -C "$d" apply "$V/$p" 2>/dev/null; then
   rm -rf "$d"; exit 1
 fi
 o=$(mktemp -d "${TMPDIR:-/tmp}/gabi-mut-out-XXXXXX")
-out=$(VERIF_REPO="$d" VERIF_OUT="$o" ./check "$prop" 2>&1); rc=$?
+# A violation in any function settles the verdict, so the function the patch touches is tried alone first (the obligations of one
+# function do not depend on which other functions are checked in the same run); without a violation there, the whole check runs.
+fn=$(grep -h '^@@' "$V/$p" | sed -n 's/.*@@ func \(([^)]*) \)\{0,1\}\([A-Za-z0-9_]*\).*/\2/p' | head -1)
+rc=0; out=""
+if [ -n "$fn" ] && [ -z "${FULL:-}" ]; then
+  out=$(VERIF_REPO="$d" VERIF_OUT="$o" ./check "$prop" --func "$fn" 2>&1); rc=$?
+  [ "$rc" -eq 1 ] && [ "$(echo "$out" | grep -c '^VIOLATION')" -gt 0 ] || rc=0
+fi
+if [ "$rc" -ne 1 ]; then
+  out=$(VERIF_REPO="$d" VERIF_OUT="$o" ./check "$prop" 2>&1); rc=$?
+fi
 rm -rf "$o" "$d"
 n=$(echo "$out" | grep -c '^VIOLATION')
 if [ "$rc" -eq 1 ] && [ "$n" -gt 0 ]; then
